@@ -310,6 +310,7 @@ type rewriter struct {
 	fresh        map[string]bool
 	tmpCount     int
 	needGenerics bool
+	inOnce       int // > 0 while the body of a function literal handed to a `.Do(` call is scanned
 }
 
 func (rw *rewriter) off(p token.Pos) int { return rw.fset.Position(p).Offset }
@@ -602,6 +603,9 @@ func (rw *rewriter) tableSel(e ast.Expr) (string, bool, bool) {
 	}
 	x := rw.text(se.X)
 	if otherFields[se.Sel.Name] {
+		if rw.inOnce > 0 {
+			return "", false, false
+		}
 		id, isIdent := se.X.(*ast.Ident)
 		if !isIdent || id.Obj == nil {
 			// not a plain local / parameter / receiver (an imported package has no Obj either)
@@ -640,6 +644,32 @@ func (rw *rewriter) scan(n ast.Node, acc *[]access, top bool) {
 	case *ast.FuncLit:
 		rw.walkList(s.Body.List)
 		return
+	case *ast.CallExpr:
+		// one-time initialisation through a Once (`e.once.Do(func() { e.cache = ... })`) is ordered by the Once, not
+		// by a lock: the general lockset rule knows no such edge, so stores made there are not probed (Eraser's own
+		// blind spot; the readers are still probed, and reads alone never make a report)
+		if se, ok := s.Fun.(*ast.SelectorExpr); ok && se.Sel.Name == "Do" {
+			rw.scan(s.Fun, acc, false)
+			for _, a := range s.Args {
+				if fl, ok := a.(*ast.FuncLit); ok {
+					rw.inOnce++
+					rw.walkList(fl.Body.List)
+					rw.inOnce--
+				} else {
+					rw.scan(a, acc, false)
+				}
+			}
+			return
+		}
+		if id, ok := s.Fun.(*ast.Ident); ok && (id.Name == "delete" || id.Name == "clear") && len(s.Args) > 0 {
+			if !rw.note(s.Args[0], true, acc) {
+				rw.scan(s.Args[0], acc, false)
+			}
+			for _, a := range s.Args[1:] {
+				rw.scan(a, acc, false)
+			}
+			return
+		}
 	case *ast.AssignStmt:
 		for _, l := range s.Lhs {
 			rw.scanLHS(l, acc)
@@ -651,16 +681,6 @@ func (rw *rewriter) scan(n ast.Node, acc *[]access, top bool) {
 	case *ast.IncDecStmt:
 		rw.scanLHS(s.X, acc)
 		return
-	case *ast.CallExpr:
-		if id, ok := s.Fun.(*ast.Ident); ok && (id.Name == "delete" || id.Name == "clear") && len(s.Args) > 0 {
-			if !rw.note(s.Args[0], true, acc) {
-				rw.scan(s.Args[0], acc, false)
-			}
-			for _, a := range s.Args[1:] {
-				rw.scan(a, acc, false)
-			}
-			return
-		}
 	case *ast.SelectorExpr:
 		if rw.note(s, false, acc) {
 			return
